@@ -29,6 +29,8 @@ import sqlite3
 import types
 import typing as tp
 import uuid
+
+import typing_extensions as te
 from collections.abc import Callable as abc_Callable
 from operator import attrgetter
 
@@ -1492,7 +1494,8 @@ def istypealiastype(t: tp.Any) -> compat.TypeIs[compat.TypeAliasType]:
         True
 
     """
-    return isinstance(t, compat.TypeAliasType)
+    # The `typing_extensions` backport is a distinct class from `typing.TypeAliasType`.
+    return isinstance(t, (compat.TypeAliasType, te.TypeAliasType))
 
 
 @compat.cache
